@@ -221,6 +221,22 @@ const IX_ENGINE: usize = 10;
 
 const SELKEYS: [&str; 3] = ["1234567890", "asdfghjkl;", "aoeuhtnsid"];
 
+/// selection-key arrays for the legacy int setters (`chewing_set_selKey`, `chewing_Configure`), which store whatever ten
+/// integers they are given: ASCII, Latin-1 codes 0x80..=0xFF (keysyms of an AZERTY digit row), 0 for unused slots,
+/// values beyond a byte (low byte 0xE9 / 0x00), negative values.  Whatever the context holds, every string getter —
+/// `chewing_config_get_str("chewing.selection_keys")` in particular — must hand out well-formed text or an error.
+const SELKEY_ARRAYS: [[i32; 10]; 9] = [
+    [49, 50, 51, 52, 53, 54, 55, 56, 57, 48],
+    [0xE9, 0x22, 0x27, 0x28, 0x2D, 0xE8, 0x5F, 0xE7, 0xE0, 0x29],
+    [0x80, 0xFF, 0xA0, 0xC3, 0xA9, 0xBF, 0xC0, 0xDF, 0xF7, 0x81],
+    [0x7F, 0x80, 0x7E, 0xC2, 0xA0, 0xE2, 0x82, 0xAC, 0xF0, 0x9F],
+    [49, 50, 51, 52, 53, 0, 0, 0, 0, 0],
+    [0xE9, 0, 0xE8, 0, 97, 0, 0, 0, 0, 0],
+    [0x1E9, 0x141, 65, 66, 0x7FFF_FFE9, 67, 68, 69, 70, 0x2C3],
+    [256, 49, 50, 51, 52, 53, 54, 55, 56, 57],
+    [-1, -128, -23, -200, i32::MIN + 0xC3, 49, 50, 51, 52, 53],
+];
+
 const KEY_NAMES: [&str; 17] = [
     "Space", "Esc", "Enter", "Del", "Backspace", "Tab", "Left", "Right", "Up", "Down", "Home", "End", "PageUp",
     "PageDown", "ShiftLeft", "ShiftRight", "Capslock",
@@ -776,6 +792,9 @@ impl Worker {
                         return "bad-pointer".into();
                     }
                     got = CStr::from_ptr(p).to_bytes().to_vec();
+                    if std::str::from_utf8(&got).is_err() {
+                        self.problem("utf8", format!("kbtype_String_static is not valid UTF-8: b{}", hexs(&got)));
+                    }
                     if p as usize != self.empty_ptr {
                         let dump = std::slice::from_raw_parts(p as *const u8, CAP_KBTYPE).to_vec();
                         let (pre, zeros) = split_dump(&dump);
@@ -817,6 +836,31 @@ impl Worker {
                 let r = chewing_config_set_str(c, c"chewing.selection_keys".as_ptr(), v.as_ptr());
                 self.tok("chewing_config_set_str", "", "");
                 format!("ret={}", r)
+            }
+            "ssk" => {
+                // the legacy setter: ten integers, stored as they are
+                let keys = SELKEY_ARRAYS[a1 as usize % SELKEY_ARRAYS.len()];
+                chewing_set_selKey(c, keys.as_ptr(), 10);
+                self.tok("chewing_set_selKey", "", "");
+                format!("{:?}", keys)
+            }
+            "conf" => {
+                // the legacy bulk call (ChewingConfigData is repr(C): 2 ints, 10 selection keys, 7 ints) with the current
+                // values of the other options
+                let keys = SELKEY_ARRAYS[a1 as usize % SELKEY_ARRAYS.len()];
+                let mut data: [c_int; 19] = [0; 19];
+                data[0] = chewing_get_candPerPage(c);
+                data[1] = chewing_get_maxChiSymbolLen(c);
+                data[2..12].copy_from_slice(&keys);
+                data[12] = chewing_get_addPhraseDirection(c);
+                data[13] = chewing_get_spaceAsSelection(c);
+                data[14] = chewing_get_escCleanAllBuf(c);
+                data[15] = chewing_get_autoShiftCur(c);
+                data[16] = chewing_get_easySymbolInput(c);
+                data[17] = chewing_get_phraseChoiceRearward(c);
+                let r = chewing_Configure(c, data.as_mut_ptr().cast());
+                self.tok("chewing_Configure", "", "");
+                format!("ret={} {:?}", r, keys)
             }
             "cfg" => {
                 let ix = a1 as usize % INT_OPTIONS.len();
@@ -900,11 +944,54 @@ impl Worker {
                 let nm = if a1 % 2 == 0 { c"chewing.keyboard_type" } else { c"chewing.selection_keys" };
                 let r = chewing_config_get_str(c, nm.as_ptr(), &mut p);
                 let t = self.take_heap(p, "config_get_str").unwrap_or_default();
+                if (r == 0) == p.is_null() {
+                    self.problem("proto-cgs", format!("chewing_config_get_str returned {} with a {} result pointer", r, if p.is_null() { "NULL" } else { "non-NULL" }));
+                }
+                if a1 % 2 != 0 {
+                    // the selection keys as the context holds them (chewing_get_selKey points into the context)
+                    let kp = chewing_get_selKey(c);
+                    if !kp.is_null() {
+                        let keys: Vec<i32> = std::slice::from_raw_parts(kp as *const i32, 10).to_vec();
+                        let ks: Vec<String> = keys.iter().map(|k| k.to_string()).collect();
+                        // model record: the text is the UTF-8 encoding of `char::from(key as u8)` per key, an error iff a low byte is 0
+                        self.gets.insert(format!("cstr selkeys {} => {} {}", ks.join(","), r, if p.is_null() { "-".to_string() } else { format!("x{}", hexs(&t)) }));
+                        // and directly: what a reader decodes is one character per key, the key's low byte as a code point
+                        let want: String = keys.iter().map(|k| char::from(*k as u8)).collect();
+                        if keys.iter().any(|k| *k as u8 == 0) {
+                            if r == 0 {
+                                self.problem("selkeys-text", format!("config_get_str(selection_keys) = OK x{} although a key's low byte is 0: keys {:?}", hexs(&t), keys));
+                            }
+                        } else if r != 0 || t != want.as_bytes() {
+                            self.problem("selkeys-text", format!("config_get_str(selection_keys) = {} x{} but the keys {:?} read x{}", r, hexs(&t), keys, hexs(want.as_bytes())));
+                        }
+                    }
+                }
                 if !p.is_null() {
                     self.keep(p.cast(), t.len() + 1);
                     self.tok("chewing_config_get_str", &(p as usize).to_string(), "");
                 }
                 format!("ret={} x{}", r, hexs(&t))
+            }
+            "p2b" => {
+                // pure helper writing into a caller buffer of `len` bytes (a heap block: memcheck sees any overrun)
+                let (phone, len) = (a1 as u16, (a2 as usize).min(64));
+                let mut buf = vec![0xAAu8; len];
+                let r = chewing_phone_to_bopomofo(phone, if len == 0 { std::ptr::null_mut() } else { buf.as_mut_ptr().cast() }, len as u16);
+                self.tok("chewing_phone_to_bopomofo", "", "");
+                if r > 0 && len >= r as usize {
+                    let n = r as usize - 1;
+                    if buf[n] != 0 || buf[..n].contains(&0) {
+                        self.problem("nul", format!("phone_to_bopomofo({:#x}, len {}) = {}: the text is not NUL-terminated at {}: b{}", phone, len, r, n, hexs(&buf)));
+                    } else if std::str::from_utf8(&buf[..n]).is_err() || n == 0 {
+                        self.problem("utf8", format!("phone_to_bopomofo({:#x}) wrote b{}: not valid non-empty UTF-8", phone, hexs(&buf[..n])));
+                    }
+                    if buf[n + 1..].iter().any(|b| *b != 0xAA) {
+                        self.problem("overrun", format!("phone_to_bopomofo({:#x}, len {}) = {} wrote beyond its text: b{}", phone, len, r, hexs(&buf)));
+                    }
+                } else if buf.iter().any(|b| *b != 0xAA) {
+                    self.problem("overrun", format!("phone_to_bopomofo({:#x}, len {}) = {} wrote into a buffer that is too short: b{}", phone, len, r, hexs(&buf)));
+                }
+                format!("ret={}", r)
             }
             "gsk" => {
                 // chewing_get_selKey hands out a pointer INTO the context (not a heap result): reading it is fine,
@@ -1157,18 +1244,31 @@ fn gen_ops(rng: &mut Rng, disciplined: bool, len: usize) -> Vec<String> {
                 6 => "cln".to_string(),
                 _ => "clp".to_string(),
             }),
-            12 => new.push(match rng.below(5) {
-                0 => format!("kb:{}", rng.below(19)),
-                1 => format!("kbs:{}", rng.below(17)),
-                2 => format!("selk:{}", rng.below(3)),
+            12 => match rng.below(7) {
+                0 => new.push(format!("kb:{}", rng.below(19))),
+                1 => new.push(format!("kbs:{}", rng.below(17))),
+                2 => new.push(format!("selk:{}", rng.below(3))),
+                3 | 4 => {
+                    // legacy int setters with codes outside ASCII (0x80..=0xFF, 0, beyond a byte, negative), then the
+                    // string getter of the named option (and now and then the raw keys, the other string option)
+                    new.push(format!("{}:{}", rng.pick(&["ssk", "ssk", "conf"]), rng.below(SELKEY_ARRAYS.len() as u64)));
+                    new.push("cgs:1".into());
+                    if rng.chance(1, 3) {
+                        new.push((*rng.pick(&["gsk", "cgs:0", "hs:0"])).to_string());
+                    }
+                }
                 _ => {
                     let ix = rng.below(INT_OPTIONS.len() as u64);
                     let v = if ix == 3 { rng.range(1, 10) } else if ix == 7 { rng.range(0, 39) } else { rng.range(0, 2) };
-                    format!("cfg:{}:{}", ix, v)
+                    new.push(format!("cfg:{}:{}", ix, v));
                 }
-            }),
+            },
             13 => new.push((*rng.pick(&["reset", "ack", "commit", "clean", "cleanb", "dt", "cn:1"])).to_string()),
-            14 => new.push(match rng.below(4) {
+            14 => new.push(match rng.below(5) {
+                4 => {
+                    let (a, b) = (rng.below(65536), rng.below(65536));
+                    format!("p2b:{}:{}", *rng.pick(&[a, b, 0x2004, 0x0208, 0, 0xFFFF]), rng.below(20))
+                }
                 0 => "ps".to_string(),
                 1 => format!("hs:{}", rng.below(6)),
                 2 => "gsk".to_string(),
@@ -1638,6 +1738,19 @@ fn parent_main() {
         ops.push(format!("cfgx:{}:0", IX_ENGINE));
         ops.push("hs:1".into());
         lines.push(format!("w-f35 S B M {}", ops.join(",")));
+    }
+    // selection keys that are not ASCII codes (legacy int setters) followed by the string getters: every array of the pool
+    {
+        let mut ops: Vec<String> = Vec::new();
+        for i in 0..SELKEY_ARRAYS.len() {
+            ops.push(format!("{}:{}", if i % 3 == 2 { "conf" } else { "ssk" }, i));
+            ops.push("cgs:1".into());
+            ops.push("cgs:0".into());
+        }
+        ops.push("gsk".into());
+        ops.push("selk:1".into());
+        ops.push("cgs:1".into());
+        lines.push(format!("w-selkeys S B M {}", ops.join(",")));
     }
     let (results, crashes) = run_all(&lines, false, 40);
     let mut seen_get = BTreeSet::new();
